@@ -96,6 +96,16 @@ TRUSTED = {
     ],
 }
 
+TRUSTED['C44'] = [
+    'POSIX model of contracts/c44_private.py (handlers, not contracts): os.umask(m) sets the process umask and '
+    'returns the previous one; a file created by zmq.auth.create_certificates / shutil.copyfile gets mode '
+    '(requested & ~umask), so it is owner-only when the umask is 0o177; os.chmod(p, m) sets the mode of p; '
+    'os.makedirs / os.unlink / rmtree do not create key files; get_pri_dao may create the database file with any mode',
+]
+TRUSTED['C38'] = ['os.path model: isabs(p) == p.startswith("/"); normpath is an arbitrary function of the text; '
+                  'str.split(sep) is some non-empty list of substrings without sep']
+TRUSTED['C39'] = TRUSTED['C38'][:1]
+
 GLUE = {
     'C18': [],
 }
